@@ -24,7 +24,8 @@ ID = 'C02'
 IMPORTS = ['Unify.Unify', 'Unify.RunUnify', 'Unify.RunUnifySched']
 THEOREMS = ['C02_unify_sound', 'C02_unify_complete_mgu', 'C02_unify_most_general', 'C02_unify_fail_no_unifier', 'C02_unify_sym_ok', 'C02_unify_sym_fail', 'C02_unify_functor_arity', 'C02_unify_fuel_irrelevant', 'C02_unify_equivariant', 'C02_unify_increment', 'C02_unify_yields_at_most_once', 'C02_generator_is_unify',
             'C02_late_start_is_unify', 'C02_late_start_mgu', 'C02_late_start_fail', 'C02_late_start_snapshot_mgu', 'C02_late_start_snapshot_fail',
-            'C02_late_start_sym', 'C02_late_drive_restores', 'C02_stack_mgu', 'C02_stack_fail_no_unifier', 'C02_run_events_is_generator_model']
+            'C02_late_start_sym', 'C02_late_drive_restores', 'C02_stack_mgu', 'C02_stack_fail_no_unifier', 'C02_run_events_is_generator_model',
+            'C02_sched_refines', 'C02_srun_mgu', 'C02_run_events_spec']
 RULE = ('ALL 576 pairs of terms of depth <= 2 over {a, b, X0, X1, f/1, g/2} exhaustively (thorough tier: also under 3 active bindings), plus '
         'random pairs of terms (depth <= 4, atoms/ints/strs/variables/compound/lists/partial lists; the second '
         'term is with probability 1/2 a mutation of the first so that most pairs nearly unify) under a stack of 0-4 '
